@@ -1,10 +1,14 @@
 import MpireModel.Model.Signal
 import MpireModel.Proofs.Signal
+import MpireModel.Model.Shutdown
+import MpireModel.Proofs.Shutdown
 /-!
-# C05 — no leaked signal state (the part of the property a model can carry; processes, threads and descriptors are
-observed on the implementation by the check, see DESIGN.md)
+# C05 — nothing is left behind: signal state, worker processes, helper threads
 
-`ops` is ANY sequence of entering / leaving the pool's two SIGINT context managers with SIGINT arriving anywhere.
+Signal state: `ops` is ANY sequence of entering / leaving the pool's two SIGINT context managers with SIGINT arriving anywhere.
+Worker processes: `terminate()` for EVERY behaviour of every worker (`Fate`: never started, running a task or not, gone after k
+looks or never by itself).  Helper threads: the stop of the restart handler for EVERY interleaving of the handler thread, the
+stopping thread and the workers.  Descriptors and the OS process table are observed on the implementation (DESIGN.md).
 -/
 namespace Mpire.C05
 open Mpire.Signal Mpire.Proofs.Signal
@@ -30,5 +34,93 @@ theorem single_signal_once (h : H) (n : Nat) (hx : h = .dfl ∨ h = .ign) (ops :
 
 example : (run (idle .dfl 0) [.enterDelayed, .enterDisabled, .sigint, .exit, .sigint, .exit]).map
     (fun s => (s.handler, s.raised, s.dropped)) = some (.dfl, 1, 1) := by decide +kernel
+
+/-! ## worker processes: the forced shutdown (Model/Shutdown.lean, Part A and B) -/
+section Shutdown
+open Mpire.Shutdown
+
+/-- `_terminate_worker` never returns believing the process may still be there: either the process left by itself within the
+pool's patience — then it is never sent SIGTERM — or it is sent SIGTERM and waited for WITHOUT a time limit. -/
+theorem forced_shutdown_never_gives_up (f : Fate) (h : f.started = true) :
+    (goneBy f patience = true ∧ Act.term ∉ terminateWorker f) ∨
+    (goneBy f patience = false ∧ ∃ pre, terminateWorker f = pre ++ [Act.term, Act.joinForever, Act.close]) :=
+  Mpire.Proofs.Shutdown.never_gives_up f h
+
+/-- the interrupt signal goes to a worker exactly when it is running a task, and once -/
+theorem kill_signal_iff_running (f : Fate) :
+    (terminateWorker f).count Act.usr1 = if f.started && f.running then 1 else 0 :=
+  Mpire.Proofs.Shutdown.kill_signal_iff_running f
+
+/-- a worker that leaves at its k-th look (k < 10) costs exactly k bounded joins and drains, and nothing harsher -/
+theorem cooperative_worker_shape (f : Fate) (k : Nat) (hs : f.started = true) (hl : f.leaves = some k) (hk : k < patience) :
+    terminateWorker f = (if f.running then [Act.usr1] else []) ++
+      (List.replicate k [Act.join false, Act.drain]).flatten ++ [Act.join true, Act.close] :=
+  Mpire.Proofs.Shutdown.cooperative_shape f k hs hl hk
+
+/-- the effort per worker is bounded, whatever the worker does -/
+theorem forced_shutdown_bounded (f : Fate) : (terminateWorker f).length ≤ 2 * patience + 4 :=
+  Mpire.Proofs.Shutdown.bounded_effort f
+
+/-- `terminate()`: afterwards the pool holds no worker and no helper thread, and behind every slot it held — never filled, thread,
+process of any behaviour — nothing is left running. -/
+theorem terminate_leaves_nothing (p : Pool) :
+    (terminate p).1.workers = [] ∧ (terminate p).1.handlers = 0 ∧
+    (p.workers ≠ [] → (terminate p).2.length = p.workers.length) ∧
+    (∀ (i : Nat) (o : Option Fate) (as : List Act), p.workers[i]? = some o → (terminate p).2[i]? = some as → settled o as = true) :=
+  Mpire.Proofs.Shutdown.terminate_leaves_nothing p
+
+example : terminateWorker { started := true, running := true, leaves := some 2 } =
+    [.usr1, .join false, .drain, .join false, .drain, .join true, .close] := by decide +kernel
+example : (terminateWorker { started := true, running := false, leaves := none }).drop 20 = [.term, .joinForever, .close] := by
+  decide +kernel
+
+end Shutdown
+
+/-! ## helper threads: stopping the restart handler (Model/Shutdown.lean, Part C) -/
+section HandlerStop
+open Mpire.Shutdown
+
+/-- `_stop_handler_threads` gets past the restart handler only when that thread has ended — in every reachable state, of the
+repaired and of the pinned code alike. -/
+theorem stopper_done_means_thread_gone (fx : Bool) (s : HS) (h : Reachable fx s) (hd : s.spc = .done) : s.pc = .gone :=
+  Mpire.Proofs.Shutdown.stopper_done_means_gone fx s h hd
+
+/-- The repaired stop never hangs: in no reachable state — whatever the interleaving of the handler thread, the stopping thread,
+workers asking for restarts and failures reported meanwhile — is the handler thread still there with nothing able to move. -/
+theorem repaired_stop_never_hangs (s : HS) (h : Reachable true s) : hung s = false :=
+  Mpire.Proofs.Shutdown.fixed_never_hangs s h
+
+/-- … and from every reachable state in which the stop has begun it can be completed within 12 steps (no trap states). -/
+theorem repaired_stop_can_always_finish (s : HS) (h : Reachable true s) (hs : s.spc ≠ .setFlag) :
+    ∃ ws, ws.length ≤ 12 ∧ (run s ws).map (·.spc) = some SPc.done :=
+  Mpire.Proofs.Shutdown.fixed_can_always_finish s h hs
+
+/-- Termination under fair scheduling, in three parts: once a stop flag is set (i) it stays set and no step of anybody moves the
+handler thread away from its end, (ii) every step of the thread itself brings it strictly closer, (iii) the thread can always
+step unless it waits for a notification, and a waiting thread is woken by at most four steps of the repaired stopper, which
+itself can always step. -/
+theorem repaired_stop_terminates_fairly :
+    (∀ (s s' : HS) (w : Who), s.flag = true → step s w = some s' → s'.flag = true ∧ rank s'.pc ≤ rank s.pc) ∧
+    (∀ (s s' : HS), s.flag = true → step s .thread = some s' → rank s'.pc < rank s.pc) ∧
+    (∀ (s : HS), s.pc ≠ .waiting → s.pc ≠ .gone → (step s .thread).isSome = true) ∧
+    (∀ (s : HS), s.fixed = true → s.pc = .waiting → (s.spc = .probe ∨ s.spc = .probeLoop ∨ s.spc = .notify ∨ s.spc = .joinShort) →
+        ∃ n, n ≤ 4 ∧ (run s (List.replicate n Who.stopper)).map (·.pc) = some RPc.woken) ∧
+    (∀ (s : HS), s.fixed = true → s.spc ≠ .done → s.spc ≠ .joinForever → (step s .stopper).isSome = true) :=
+  ⟨fun s s' w hf h => ⟨Mpire.Proofs.Shutdown.flag_stays s s' w hf h, Mpire.Proofs.Shutdown.rank_never_increases s s' w hf h⟩,
+   Mpire.Proofs.Shutdown.thread_step_decreases,
+   Mpire.Proofs.Shutdown.thread_enabled_unless_waiting,
+   Mpire.Proofs.Shutdown.fixed_waiting_is_woken,
+   Mpire.Proofs.Shutdown.fixed_stopper_never_blocks⟩
+
+/-- The pinned code (one notification, then an unbounded join) CAN hang: the handler thread tests the stop flags, the stopper sets
+the flag and notifies nobody, the thread then waits for a notification that never comes while the stopper waits for the thread
+(defect D29: found on the implementation under DetSim, repaired in /repo). -/
+theorem pinned_stop_can_hang : ∃ ws s, run { fixed := false } ws = some s ∧ hung s = true ∧ s.pc = .waiting ∧ s.spc = .joinForever :=
+  Mpire.Proofs.Shutdown.pinned_can_hang
+
+example : (run { fixed := true } [.thread, .stopper, .stopper, .stopper, .stopper, .thread, .stopper, .stopper, .stopper, .thread,
+    .thread, .stopper, .stopper]).map (fun s => (s.pc, s.spc)) = some (.gone, .done) := by decide +kernel
+
+end HandlerStop
 
 end Mpire.C05
